@@ -1,7 +1,12 @@
 #include "run.h"
 #include "ops_util.h"
 
+#include <sys/mman.h>
+#include <sys/wait.h>
+#include <unistd.h>
+
 #include <algorithm>
+#include <cstdio>
 #include <cstring>
 
 namespace simw {
@@ -9,6 +14,8 @@ namespace simw {
 uint64_t *probe_array();
 
 namespace {
+
+bool g_isolate = true;  // one pristine process image per world (see "isolation" below)
 
 struct TaskLog {
   std::vector<uint64_t> obs;
@@ -395,7 +402,7 @@ void run_world(const Plan &plan, const sim::SchedConfig &cfg, WorldResult &res) 
       // deliberately instead of destroying objects under them
       new WorldRun(std::move(wr));
       sim::live_reset();
-      sim::reset_library_guards();
+      if (!g_isolate) sim::reset_library_guards();
       return;
     }
     // teardown in library mode (destruction is library code), main context
@@ -412,7 +419,145 @@ void run_world(const Plan &plan, const sim::SchedConfig &cfg, WorldResult &res) 
   }
   size_t live1 = sim::live_library_allocations();
   res.leaked = live1 > live0 ? live1 - live0 : 0;
-  sim::reset_library_guards();
+  if (!g_isolate) sim::reset_library_guards();
+}
+
+
+// ------------------------------------------------------------------ isolation
+// Every world runs in a process image that has executed no library code
+// before: the batch loop forks one child per run (main.cpp) and the
+// non-pre-emptive reference world of a run is executed in a child of its own
+// here. Function-local statics, once-flags, atomics - whatever process-global
+// state a library keeps - are therefore cold in every world, and no world can
+// inherit anything from another one. The reference world's result comes back
+// through shared memory.
+constexpr int kMaxOpsShared = 512;
+struct CanonShared {
+  volatile int valid;
+  int ntasks;
+  sim::SchedStats stats;
+  int tsan_reports;
+  uint64_t pool_state;
+  uint32_t nops[8];
+  uint64_t obs[8][kMaxOpsShared];
+  int32_t status[8][kMaxOpsShared];
+  uint8_t fired[8][kMaxOpsShared];
+  Counters cnt;
+  uint64_t probes[256];
+  uint32_t viol_len;
+  char viol_json[65536];
+};
+
+sj::Value violation_to_json(const Violation &x) {
+  using sj::Value;
+  Value e = Value::Obj();
+  e.set("prop", Value::Str(x.prop)).set("cls", Value::Str(x.cls)).set("site", Value::Str(x.site));
+  e.set("task", Value::Int(x.task)).set("op", Value::Int(x.op)).set("opkind", Value::Int(x.opkind));
+  e.set("detail", Value::Str(x.detail.substr(0, 600)));
+  e.set("sweep_kind", Value::Int(x.sweep_kind)).set("sweep_k", Value::Int(x.sweep_k));
+  return e;
+}
+Violation violation_from_json(const sj::Value &e) {
+  Violation v;
+  v.prop = e.gets("prop");
+  v.cls = e.gets("cls");
+  v.site = e.gets("site");
+  v.task = (int)e.geti("task", -1);
+  v.op = (int)e.geti("op", -1);
+  v.opkind = (int)e.geti("opkind", -1);
+  v.detail = e.gets("detail");
+  v.sweep_kind = (int)e.geti("sweep_kind", -1);
+  v.sweep_k = e.geti("sweep_k", -1);
+  return v;
+}
+
+// returns false if the child running the world died (its death line has been
+// printed by the child itself)
+bool run_world_in_child(const Plan &plan, const sim::SchedConfig &cfg, WorldResult &res) {
+  static CanonShared *shm = nullptr;
+  if (!shm) {
+    void *p = mmap(nullptr, sizeof(CanonShared), PROT_READ | PROT_WRITE, MAP_SHARED | MAP_ANONYMOUS, -1, 0);
+    if (p == MAP_FAILED) {
+      fprintf(stderr, "sim: mmap shared failed\n");
+      _exit(2);
+    }
+    shm = static_cast<CanonShared *>(p);
+  }
+  shm->valid = 0;
+  fflush(stdout);
+  fflush(stderr);
+  pid_t pid = fork();
+  if (pid < 0) {
+    fprintf(stderr, "sim: fork failed\n");
+    _exit(2);
+  }
+  if (pid == 0) {
+    WorldResult w;
+    run_world(plan, cfg, w);
+    int n = (int)w.logs.size();
+    shm->ntasks = n;
+    shm->stats = w.stats;
+    shm->tsan_reports = sim::tsan_report_count();
+    shm->pool_state = w.pool_state;
+    Counters c = w.setup_log.cnt;
+    sj::Value va = sj::Value::Arr();
+    for (auto &v : w.setup_log.viol) {
+      v.detail = std::string("[setup] ") + v.detail;
+      va.push(violation_to_json(v));
+    }
+    for (int t = 0; t < n && t < 8; t++) {
+      const TaskLog &l = w.logs[t];
+      size_t m = std::min<size_t>(l.obs.size(), kMaxOpsShared);
+      shm->nops[t] = (uint32_t)m;
+      for (size_t i = 0; i < m; i++) {
+        shm->obs[t][i] = l.obs[i];
+        shm->status[t][i] = l.status[i];
+        shm->fired[t][i] = l.fired[i];
+      }
+      add_counters(c, l.cnt);
+      for (const auto &v : l.viol) va.push(violation_to_json(v));
+    }
+    shm->cnt = c;
+    uint64_t *pa = probe_array();
+    for (int k = 0; k < 256; k++) shm->probes[k] = pa[k];
+    std::string js = va.str();
+    if (js.size() >= sizeof(shm->viol_json)) js = "[]";
+    memcpy(shm->viol_json, js.data(), js.size());
+    shm->viol_len = (uint32_t)js.size();
+    shm->valid = 1;
+    fflush(stdout);
+    fflush(stderr);
+    _exit(0);
+  }
+  int st = 0;
+  while (waitpid(pid, &st, 0) < 0) {
+  }
+  if (!shm->valid) return false;
+  int n = shm->ntasks;
+  res.logs.assign(n, TaskLog());
+  res.stats = shm->stats;
+  res.stats.tsan_reports = shm->tsan_reports;
+  res.pool_state = shm->pool_state;
+  for (int t = 0; t < n && t < 8; t++) {
+    TaskLog &l = res.logs[t];
+    for (uint32_t i = 0; i < shm->nops[t]; i++) {
+      l.obs.push_back(shm->obs[t][i]);
+      l.status.push_back(shm->status[t][i]);
+      l.fired.push_back(shm->fired[t][i]);
+    }
+  }
+  res.setup_log.cnt = shm->cnt;
+  uint64_t *pa = probe_array();
+  for (int k = 0; k < 256; k++) pa[k] += shm->probes[k];
+  sj::Parser ps(std::string(shm->viol_json, shm->viol_len));
+  sj::Value va = ps.parse();
+  if (ps.ok)
+    for (const sj::Value &e : va.a) {
+      Violation v = violation_from_json(e);
+      if (n > 0) res.logs[0].viol.push_back(v);
+      else res.setup_log.viol.push_back(v);
+    }
+  return true;
 }
 
 }  // namespace
@@ -430,7 +575,17 @@ RunResult run_plan(const Plan &plan, const RunOptions &opt, Counters &cnt) {
     c0.policy = sim::P_RUN_TO_BLOCK;
     c0.seed = plan.sched.seed;
     c0.static_init_throw = (uint32_t)plan.static_init_throw;
-    run_world(plan, c0, canon);
+    if (g_isolate) {
+      if (!run_world_in_child(plan, c0, canon)) {
+        // the reference world died: so does this run (the child has printed
+        // the death line); no RUN line is emitted for it
+        fflush(stdout);
+        fflush(stderr);
+        _exit(75);
+      }
+    } else {
+      run_world(plan, c0, canon);
+    }
     have_canon = true;
     fold_stats(local, canon.stats);
   }
@@ -530,7 +685,7 @@ RunResult run_plan(const Plan &plan, const RunOptions &opt, Counters &cnt) {
     }
     local.runs_deadlock++;
   }
-  int tsan_new = sim::tsan_report_count() - tsan0;
+  int tsan_new = sim::tsan_report_count() - tsan0 + (have_canon && g_isolate ? canon.stats.tsan_reports : 0);
   if (tsan_new > 0) {
     Violation v;
     v.prop = "C18";
@@ -592,6 +747,9 @@ RunResult run_plan(const Plan &plan, const RunOptions &opt, Counters &cnt) {
   add_counters(cnt, local);
   return rr;
 }
+
+void set_isolate(bool on) { g_isolate = on; }
+void add_counters_public(Counters &a, const Counters &b) { add_counters(a, b); }
 
 // ------------------------------------------------------------------ JSON
 sj::Value counters_to_json(const Counters &c) {
